@@ -138,6 +138,24 @@ theorem onehot_row {α} [Zero α] [One α] (y : List C) (c : C) (hc : c ∈ y) :
   · have : ¬ (classesOf y)[j] = c := fun h => hji (hiff.mp h).symm
     simp [hji, hj, this]
 
+theorem replicate_set_sum_one (n i : Nat) (hi : i < n) :
+    ((List.replicate n (0 : ℝ)).set i 1).sum = 1 := by
+  induction n generalizing i with
+  | zero => omega
+  | succ n ih =>
+    cases i with
+    | zero => simp [List.replicate_succ]
+    | succ i => simp [List.replicate_succ, ih i (by omega)]
+
+/-- **the target matrix `label_classes_multi` builds satisfies the hypothesis of the whole-gradient theorem**
+(`multi_logistic_grad_is_derivative`): every row has one entry per class and sums to one -/
+theorem label_classes_multi_rows_one_hot (y : List C) :
+    ∀ yr ∈ (labelClassesMulti (α := ℝ) y).2, yr.length = (classesOf y).length ∧ yr.sum = 1 := by
+  intro yr hyr
+  obtain ⟨c, hc, rfl⟩ := List.mem_map.mp hyr
+  have h := onehot_row (α := ℝ) y c hc
+  exact ⟨h.1, replicate_set_sum_one _ _ h.2.1⟩
+
 example : (classesOf [3, 1, 3, 2, 1]).Pairwise (· < ·) ∧ 2 ∈ classesOf [3, 1, 3, 2, 1] :=
   ⟨(classes_sorted_dedup _).1, ((classes_sorted_dedup _).2 2).mpr (by decide)⟩
 example : (onehotRow (α := Int) (classesOf [3, 1, 3]) 3).length = (classesOf [3, 1, 3]).length :=
@@ -552,16 +570,61 @@ example : HasDerivAt (fun t : ℝ => (logisticLoss 2 [[1, 2], [3, -1]] [1, -1] 1
     (([1, 2] : List ℝ).getD 0 0) :=
   logistic_grad_is_derivative_no_intercept 2 [[1, 2], [3, -1]] [1, -1] [1, 2] 1 rfl 0 (by norm_num)
 
+/-- every coordinate at once (binary model with intercept) -/
+theorem logistic_grad_is_derivative (nf : Nat) (x : List (List ℝ)) (y w : List ℝ) (alpha : ℝ)
+    (hw : w.length = nf + 1) (j : Nat) (hj : j < nf + 1) :
+    HasDerivAt (fun t : ℝ => (logisticLoss nf x y alpha (w.set j t)).getD 0)
+      (((logisticGrad nf x y alpha w).getD []).getD j 0) (w.getD j 0) := by
+  by_cases h : j < nf
+  · exact logistic_grad_is_derivative_weight nf x y w alpha hw j h
+  · have : j = nf := by omega
+    subst this
+    have h := logistic_grad_is_derivative_intercept j x y w alpha hw
+    rw [headD_drop] at h
+    exact h
+
+/-- **oracle clause `stationary` ⇔ first-order optimality** (binary): the gradient the code returns vanishes at `w`
+iff every partial derivative of the documented objective `logisticLoss` is zero at `w` -/
+theorem logistic_stationary_iff_grad_zero (nf : Nat) (x : List (List ℝ)) (y w : List ℝ) (alpha : ℝ)
+    (hw : w.length = nf + 1) :
+    (∀ j, j < nf + 1 → ((logisticGrad nf x y alpha w).getD []).getD j 0 = 0) ↔
+    (∀ j, j < nf + 1 → HasDerivAt (fun t : ℝ => (logisticLoss nf x y alpha (w.set j t)).getD 0) 0 (w.getD j 0)) :=
+  stationary_iff_of_hasDerivAt (nf + 1) _ _ _ (fun j hj => logistic_grad_is_derivative nf x y w alpha hw j hj)
+
+/-- quantitative form, as the oracle tests it: `‖logisticGrad‖₂ ≤ tol` ⇒ every partial derivative of the documented
+objective is at most `tol` in absolute value -/
+theorem logistic_partials_le_of_grad_norm_le (nf : Nat) (x : List (List ℝ)) (y w : List ℝ) (alpha tol : ℝ)
+    (hw : w.length = nf + 1) (htol : 0 ≤ tol)
+    (hn : (((logisticGrad nf x y alpha w).getD []).map (· ^ 2)).sum ≤ tol ^ 2) (j : Nat) (hj : j < nf + 1) :
+    |deriv (fun t : ℝ => (logisticLoss nf x y alpha (w.set j t)).getD 0) (w.getD j 0)| ≤ tol := by
+  rw [(logistic_grad_is_derivative nf x y w alpha hw j hj).deriv]
+  apply entry_abs_le_of_norm_le _ tol htol hn
+  have hlen : ((logisticGrad nf x y alpha w).getD []).length = nf + 1 := by
+    rw [logistic_grad_structure nf x y w alpha hw]
+    simp [tDot]; omega
+  rw [List.getD_eq_getElem?_getD, List.getElem?_eq_getElem (by rw [hlen]; exact hj), Option.getD_some]
+  exact List.getElem_mem _
+
+example : (∀ j, j < 2 + 1 → ((logisticGrad 2 [[1, 2], [3, -1], [0, 1]] [1, -1, 1] (1 / 2) ([1, 2, 3] : List ℝ)).getD []).getD j 0 = 0) ↔
+    (∀ j, j < 2 + 1 → HasDerivAt (fun t : ℝ =>
+      (logisticLoss 2 [[1, 2], [3, -1], [0, 1]] [1, -1, 1] (1 / 2) (([1, 2, 3] : List ℝ).set j t)).getD 0) 0
+      (([1, 2, 3] : List ℝ).getD j 0)) :=
+  logistic_stationary_iff_grad_zero 2 _ _ _ _ rfl
+
 example : HasDerivAt (fun t : ℝ => -logLogistic ((2 + 3 * (t - 1)) * (-1)))
     ((logistic (2 * (-1)) - 1) * (-1) * 3) 1 := logistic_grad_is_derivative_partial 2 3 1 (-1)
 
 /-! ### multinomial
 
-Full statement (not proved as a whole): every entry of `multiLogisticGrad` is the partial derivative
-of `multiLogisticLoss` (penalty on the weight rows only, intercept row = column sums of
-`softmax(H) - Y`).  Proved: the quantity the gradient code calls `prob` IS the row-wise softmax (the
-`1e-15` floor is inactive once the max is taken per row), and the block structure of the result.
-Missing: the derivative of `ln Σ exp` per coordinate carried through the list sums. -/
+Full statement (proved below, `multi_logistic_grad_is_derivative_{weight, intercept, no_intercept}` and the
+all-coordinates form `multi_logistic_grad_is_derivative`): every entry of `multiLogisticGrad` is the partial
+derivative of `multiLogisticLoss` (penalty on the weight rows only, intercept row = column sums of
+`softmax(H) - Y`), for one-hot targets (rows of length `k` that sum to one — for other targets the code's gradient
+is NOT the derivative of its loss).  First: the quantity the gradient code calls `prob` IS the row-wise softmax (the
+`1e-15` floor is inactive once the max is taken per row), and the block structure of the result.  Helpers
+(`logSumExpRow_eq`: log_sum_exp = ln Σ exp; `row_loss_hasDerivAt`: d/dz_c of one sample's loss = softmax_c − y_c;
+`multi_data_hasDerivAt`: sum rule over the samples; `sc_set_weight` / `sc_set_intercept`: only one class score moves)
+are in `Proofs/LogisticReal.lean`. -/
 
 /-- **`exp(H - log_sum_exp(H))` is the softmax of the row** (for any floor `eps ≤ 1`; the code's is
 `1e-15`) — `multi_logistic_grad` and `predict_probabilities` speak of the same probabilities. -/
@@ -607,6 +670,220 @@ theorem multi_logistic_grad_structure (eps : ℝ) (nf k : Nat) (x y w : List (Li
 
 example : ([1, 2, 3] : List ℝ).map (fun h => Real.exp (h - logSumExpRow (1 / 10) [1, 2, 3])) = softmax [1, 2, 3] :=
   exp_logprob_is_softmax _ (by norm_num) 1 [2, 3]
+
+/-- the multinomial penalty `½ α Σ W²` as a function of entry `(j, c0)` -/
+theorem multi_penalty_hasDerivAt (params : List (List ℝ)) (alpha : ℝ) (j c0 : Nat) (hj : j < params.length)
+    (hc0 : c0 < (params.getD j []).length) :
+    HasDerivAt (fun t : ℝ => (Logistic.half : ℝ) * alpha *
+        elemDot (params.set j ((params.getD j []).set c0 t)) (params.set j ((params.getD j []).set c0 t)))
+      ((params.getD j []).getD c0 0 * alpha) ((params.getD j []).getD c0 0) := by
+  have e : (fun t : ℝ => (Logistic.half : ℝ) * alpha *
+        elemDot (params.set j ((params.getD j []).set c0 t)) (params.set j ((params.getD j []).set c0 t))) =
+      fun t : ℝ => (Logistic.half : ℝ) * alpha *
+        ((elemDot params params - (params.getD j []).getD c0 0 * (params.getD j []).getD c0 0) + t * t) := by
+    funext t
+    rw [elemDot_set_self params j _ hj, dotS_set_self (params.getD j []) c0 t hc0]
+    ring
+  rw [e]
+  exact penalty_hasDerivAt alpha _ _
+
+
+theorem multi_loss_split (eps : ℝ) (nf k : Nat) (x y w : List (List ℝ)) (alpha : ℝ) (hw : w.length = nf + 1) :
+    multiLogisticLoss eps nf k x y alpha w =
+      some (-(elemDot (logProb eps k x (w.take nf) ((w.drop nf).headD [])) y) +
+        Logistic.half * alpha * elemDot (w.take nf) (w.take nf)) := by
+  simp [multiLogisticLoss, splitParams2, hw]
+
+/-- data part + penalty for a split parameter matrix, weight entry `(j, c0)` -/
+theorem multi_split_hasDerivAt_weight (eps : ℝ) (heps : eps ≤ 1) (k : Nat) (x y P : List (List ℝ)) (B : List ℝ)
+    (alpha : ℝ) (hy : ∀ yr ∈ y, yr.length = k ∧ yr.sum = 1) (j c0 : Nat) (hj : j < P.length) (hc0 : c0 < k)
+    (hr : c0 < (P.getD j []).length) :
+    HasDerivAt (fun t : ℝ => -(elemDot (logProb eps k x (setEntry P j c0 t) B) y) +
+        Logistic.half * alpha * elemDot (setEntry P j c0 t) (setEntry P j c0 t))
+      (dotS (col x j) (col (multiDiff eps k x y P B) c0) + (P.getD j []).getD c0 0 * alpha)
+      ((P.getD j []).getD c0 0) := by
+  have hdata := multi_data_hasDerivAt eps heps k c0 hc0
+    (fun t row => sc k row (setEntry P j c0 t) B) (fun row => sc k row P B) (fun row => row.getD j 0)
+    ((P.getD j []).getD c0 0)
+    (fun t row => by
+      show sc k row (P.set j ((P.getD j []).set c0 t)) B = _
+      rw [sc_set_weight k row P B j c0 t hj hr, sc_getD k row P B c0 hc0])
+    (fun row => sc_length k row P B) x y hy
+  have e : (fun t : ℝ => -(elemDot (logProb eps k x (setEntry P j c0 t) B) y) +
+        Logistic.half * alpha * elemDot (setEntry P j c0 t) (setEntry P j c0 t)) =
+      fun t : ℝ => -(List.zipWith (fun row yr => rowLoss eps (sc k row (setEntry P j c0 t) B) yr) x y).sum +
+        Logistic.half * alpha * elemDot (P.set j ((P.getD j []).set c0 t)) (P.set j ((P.getD j []).set c0 t)) := by
+    funext t; rw [elemDot_logProb]; rfl
+  have g : dotS (col x j) (col (multiDiff eps k x y P B) c0) =
+      (List.zipWith (fun row yr => (Real.exp ((sc k row P B).getD c0 0 - logSumExpRow eps (sc k row P B)) -
+        yr.getD c0 0) * row.getD j 0) x y).sum := by
+    rw [col_multiDiff eps k c0 hc0 P B x y hy, dotS_col_zipWith]
+  rw [g, e]
+  exact hdata.add (multi_penalty_hasDerivAt P alpha j c0 hj hr)
+
+/-- data part for a split parameter matrix, intercept entry `c0` (the penalty does not depend on it) -/
+theorem multi_split_hasDerivAt_intercept (eps : ℝ) (heps : eps ≤ 1) (k : Nat) (x y P : List (List ℝ)) (B : List ℝ)
+    (hy : ∀ yr ∈ y, yr.length = k ∧ yr.sum = 1) (c0 : Nat) (hc0 : c0 < k) (hb : c0 < B.length) :
+    HasDerivAt (fun t : ℝ => -(elemDot (logProb eps k x P (B.set c0 t)) y))
+      (sumS (col (multiDiff eps k x y P B) c0)) (B.getD c0 0) := by
+  have hdata := multi_data_hasDerivAt eps heps k c0 hc0
+    (fun t row => sc k row P (B.set c0 t)) (fun row => sc k row P B) (fun _ => 1) (B.getD c0 0)
+    (fun t row => by rw [sc_set_intercept k row P B c0 t hb, sc_getD k row P B c0 hc0])
+    (fun row => sc_length k row P B) x y hy
+  have e : (fun t : ℝ => -(elemDot (logProb eps k x P (B.set c0 t)) y)) =
+      fun t : ℝ => -(List.zipWith (fun row yr => rowLoss eps (sc k row P (B.set c0 t)) yr) x y).sum := by
+    funext t; rw [elemDot_logProb]
+  rw [e, col_multiDiff eps k c0 hc0 P B x y hy, sumS_zipWith_one]
+  exact hdata
+
+
+theorem multi_grad_entry_weight (eps : ℝ) (nf k : Nat) (x y w : List (List ℝ)) (alpha : ℝ)
+    (hw : w.length = nf + 1) (j c0 : Nat) (hj : j < nf) (hc0 : c0 < k) :
+    (((multiLogisticGrad eps nf k x y alpha w).getD []).getD j []).getD c0 0 =
+      dotS (col x j) (col (multiDiff eps k x y (w.take nf) ((w.drop nf).headD [])) c0) +
+        ((w.take nf).getD j []).getD c0 0 * alpha := by
+  rw [multi_logistic_grad_structure eps nf k x y w alpha hw, Option.getD_some]
+  simp only [List.getD_eq_getElem?_getD]
+  rw [List.getElem?_append_left (by simp [hj])]
+  simp [hj, hc0]
+
+theorem multi_grad_entry_intercept (eps : ℝ) (nf k : Nat) (x y w : List (List ℝ)) (alpha : ℝ)
+    (hw : w.length = nf + 1) (c0 : Nat) (hc0 : c0 < k) :
+    (((multiLogisticGrad eps nf k x y alpha w).getD []).getD nf []).getD c0 0 =
+      sumS (col (multiDiff eps k x y (w.take nf) ((w.drop nf).headD [])) c0) := by
+  rw [multi_logistic_grad_structure eps nf k x y w alpha hw, Option.getD_some]
+  simp only [List.getD_eq_getElem?_getD]
+  rw [List.getElem?_append_right (by simp)]
+  simp [hc0]
+
+/-- **FULL (weight entry `(j, c0)`, model with intercept)**: every weight entry of `multiLogisticGrad` is the partial
+derivative of `multiLogisticLoss`, for every sample list, every one-hot target matrix (rows of length `k` summing to
+one), every `k`, `alpha` and every parameter matrix with `nf + 1` rows of length `k` -/
+theorem multi_logistic_grad_is_derivative_weight (eps : ℝ) (heps : eps ≤ 1) (nf k : Nat) (x y w : List (List ℝ))
+    (alpha : ℝ) (hw : w.length = nf + 1) (hwk : ∀ r ∈ w, r.length = k)
+    (hy : ∀ yr ∈ y, yr.length = k ∧ yr.sum = 1) (j c0 : Nat) (hj : j < nf) (hc0 : c0 < k) :
+    HasDerivAt (fun t : ℝ => (multiLogisticLoss eps nf k x y alpha (setEntry w j c0 t)).getD 0)
+      ((((multiLogisticGrad eps nf k x y alpha w).getD []).getD j []).getD c0 0) ((w.getD j []).getD c0 0) := by
+  have hjw : j < w.length := by omega
+  have hjp : j < (w.take nf).length := by simp [hw]; omega
+  have hwj : (w.take nf).getD j [] = w.getD j [] := by simp [List.getD_eq_getElem?_getD, hj]
+  have hr : c0 < (w.getD j []).length := by
+    have : w.getD j [] ∈ w := by
+      simp only [List.getD_eq_getElem?_getD, List.getElem?_eq_getElem hjw, Option.getD_some]
+      exact List.getElem_mem hjw
+    rw [hwk _ this]; exact hc0
+  have e : (fun t : ℝ => (multiLogisticLoss eps nf k x y alpha (setEntry w j c0 t)).getD 0) =
+      fun t : ℝ => -(elemDot (logProb eps k x (setEntry (w.take nf) j c0 t) ((w.drop nf).headD [])) y) +
+        Logistic.half * alpha * elemDot (setEntry (w.take nf) j c0 t) (setEntry (w.take nf) j c0 t) := by
+    funext t
+    rw [multi_loss_split eps nf k x y (setEntry w j c0 t) alpha (by simpa [setEntry] using hw), Option.getD_some]
+    simp only [setEntry, List.take_set, List.drop_set_of_lt hj, hwj]
+  rw [e, multi_grad_entry_weight eps nf k x y w alpha hw j c0 hj hc0, ← hwj]
+  exact multi_split_hasDerivAt_weight eps heps k x y (w.take nf) _ alpha hy j c0 hjp hc0 (by rw [hwj]; exact hr)
+
+/-- **FULL (intercept entry `c0`)**: the last row of `multiLogisticGrad` holds the partial derivatives with respect to
+the intercepts (no penalty term) -/
+theorem multi_logistic_grad_is_derivative_intercept (eps : ℝ) (heps : eps ≤ 1) (nf k : Nat) (x y w : List (List ℝ))
+    (alpha : ℝ) (hw : w.length = nf + 1) (hwk : ∀ r ∈ w, r.length = k)
+    (hy : ∀ yr ∈ y, yr.length = k ∧ yr.sum = 1) (c0 : Nat) (hc0 : c0 < k) :
+    HasDerivAt (fun t : ℝ => (multiLogisticLoss eps nf k x y alpha (setEntry w nf c0 t)).getD 0)
+      ((((multiLogisticGrad eps nf k x y alpha w).getD []).getD nf []).getD c0 0) ((w.getD nf []).getD c0 0) := by
+  have hnw : nf < w.length := by omega
+  have hB : (w.drop nf).headD [] = w.getD nf [] := by
+    rw [List.headD_eq_head?_getD, List.head?_drop, List.getD_eq_getElem?_getD]
+  have hb : c0 < (w.getD nf []).length := by
+    have : w.getD nf [] ∈ w := by
+      simp only [List.getD_eq_getElem?_getD, List.getElem?_eq_getElem hnw, Option.getD_some]
+      exact List.getElem_mem hnw
+    rw [hwk _ this]; exact hc0
+  have e : (fun t : ℝ => (multiLogisticLoss eps nf k x y alpha (setEntry w nf c0 t)).getD 0) =
+      fun t : ℝ => -(elemDot (logProb eps k x (w.take nf) ((w.getD nf []).set c0 t)) y) +
+        Logistic.half * alpha * elemDot (w.take nf) (w.take nf) := by
+    funext t
+    rw [multi_loss_split eps nf k x y (setEntry w nf c0 t) alpha (by simpa [setEntry] using hw), Option.getD_some]
+    have h1 : (setEntry w nf c0 t).take nf = w.take nf := by
+      simp only [setEntry]; exact List.take_set_of_le (le_refl nf)
+    have h2 : ((setEntry w nf c0 t).drop nf).headD [] = (w.getD nf []).set c0 t := by
+      rw [List.headD_eq_head?_getD, List.head?_drop]
+      simp [setEntry, hnw]
+    rw [h1, h2]
+  rw [e, multi_grad_entry_intercept eps nf k x y w alpha hw c0 hc0, hB]
+  exact (multi_split_hasDerivAt_intercept eps heps k x y (w.take nf) (w.getD nf []) hy c0 hc0 hb).add_const _
+
+
+/-- **FULL (model without intercept)**: `w` has `nf` rows, the intercepts are fixed at zero -/
+theorem multi_logistic_grad_is_derivative_no_intercept (eps : ℝ) (heps : eps ≤ 1) (nf k : Nat)
+    (x y w : List (List ℝ)) (alpha : ℝ) (hw : w.length = nf) (hwk : ∀ r ∈ w, r.length = k)
+    (hy : ∀ yr ∈ y, yr.length = k ∧ yr.sum = 1) (j c0 : Nat) (hj : j < nf) (hc0 : c0 < k) :
+    HasDerivAt (fun t : ℝ => (multiLogisticLoss eps nf k x y alpha (setEntry w j c0 t)).getD 0)
+      ((((multiLogisticGrad eps nf k x y alpha w).getD []).getD j []).getD c0 0) ((w.getD j []).getD c0 0) := by
+  have hjw : j < w.length := by omega
+  have hr : c0 < (w.getD j []).length := by
+    have : w.getD j [] ∈ w := by
+      simp only [List.getD_eq_getElem?_getD, List.getElem?_eq_getElem hjw, Option.getD_some]
+      exact List.getElem_mem hjw
+    rw [hwk _ this]; exact hc0
+  have e : (fun t : ℝ => (multiLogisticLoss eps nf k x y alpha (setEntry w j c0 t)).getD 0) =
+      fun t : ℝ => -(elemDot (logProb eps k x (setEntry w j c0 t) (List.replicate k 0)) y) +
+        Logistic.half * alpha * elemDot (setEntry w j c0 t) (setEntry w j c0 t) := by
+    funext t
+    simp [multiLogisticLoss, splitParams2, setEntry, hw]
+  have g : (((multiLogisticGrad eps nf k x y alpha w).getD []).getD j []).getD c0 0 =
+      dotS (col x j) (col (multiDiff eps k x y w (List.replicate k 0)) c0) + (w.getD j []).getD c0 0 * alpha := by
+    simp only [multiLogisticGrad, splitParams2, hw, if_true]
+    have hne : ¬ (nf = nf + 1) := by omega
+    simp only [hne, if_false, Option.getD_some]
+    simp [List.getD_eq_getElem?_getD, hj, hc0]
+  rw [e, g]
+  exact multi_split_hasDerivAt_weight eps heps k x y w _ alpha hy j c0 hjw hc0 hr
+
+
+/-- **every entry at once** (model with intercept): rows `j < nf` are weights, row `nf` the intercepts -/
+theorem multi_logistic_grad_is_derivative (eps : ℝ) (heps : eps ≤ 1) (nf k : Nat) (x y w : List (List ℝ))
+    (alpha : ℝ) (hw : w.length = nf + 1) (hwk : ∀ r ∈ w, r.length = k)
+    (hy : ∀ yr ∈ y, yr.length = k ∧ yr.sum = 1) (j c0 : Nat) (hj : j < nf + 1) (hc0 : c0 < k) :
+    HasDerivAt (fun t : ℝ => (multiLogisticLoss eps nf k x y alpha (setEntry w j c0 t)).getD 0)
+      ((((multiLogisticGrad eps nf k x y alpha w).getD []).getD j []).getD c0 0) ((w.getD j []).getD c0 0) := by
+  by_cases h : j < nf
+  · exact multi_logistic_grad_is_derivative_weight eps heps nf k x y w alpha hw hwk hy j c0 h hc0
+  · have : j = nf := by omega
+    subst this
+    exact multi_logistic_grad_is_derivative_intercept eps heps j k x y w alpha hw hwk hy c0 hc0
+
+/-- **oracle clause `stationary` ⇔ first-order optimality** (multinomial): the gradient matrix the code returns
+vanishes at `w` iff every partial derivative of the documented objective `multiLogisticLoss` is zero at `w` -/
+theorem multi_logistic_stationary_iff_grad_zero (eps : ℝ) (heps : eps ≤ 1) (nf k : Nat) (x y w : List (List ℝ))
+    (alpha : ℝ) (hw : w.length = nf + 1) (hwk : ∀ r ∈ w, r.length = k)
+    (hy : ∀ yr ∈ y, yr.length = k ∧ yr.sum = 1) :
+    (∀ j c, j < nf + 1 → c < k → (((multiLogisticGrad eps nf k x y alpha w).getD []).getD j []).getD c 0 = 0) ↔
+    (∀ j c, j < nf + 1 → c < k →
+      HasDerivAt (fun t : ℝ => (multiLogisticLoss eps nf k x y alpha (setEntry w j c t)).getD 0) 0
+        ((w.getD j []).getD c 0)) := by
+  constructor
+  · intro h0 j c hj hc
+    have h := multi_logistic_grad_is_derivative eps heps nf k x y w alpha hw hwk hy j c hj hc
+    rw [h0 j c hj hc] at h
+    exact h
+  · intro h0 j c hj hc
+    exact (multi_logistic_grad_is_derivative eps heps nf k x y w alpha hw hwk hy j c hj hc).unique (h0 j c hj hc)
+
+example : HasDerivAt (fun t : ℝ => (multiLogisticLoss (1 / 10) 1 2 [[1], [2], [-1]] [[1, 0], [0, 1], [1, 0]] (1 / 2)
+      (setEntry ([[1, 2], [0, 1]] : List (List ℝ)) 0 1 t)).getD 0)
+    ((((multiLogisticGrad (1 / 10) 1 2 [[1], [2], [-1]] [[1, 0], [0, 1], [1, 0]] (1 / 2)
+      ([[1, 2], [0, 1]] : List (List ℝ))).getD []).getD 0 []).getD 1 0)
+    (((([[1, 2], [0, 1]] : List (List ℝ))).getD 0 []).getD 1 0) :=
+  multi_logistic_grad_is_derivative (1 / 10) (by norm_num) 1 2 _ _ _ _ rfl
+    (by intro r hr; simp at hr; rcases hr with rfl | rfl <;> rfl)
+    (by intro r hr; simp at hr; rcases hr with rfl | rfl | rfl <;> norm_num) 0 1 (by norm_num) (by norm_num)
+
+example : HasDerivAt (fun t : ℝ => (multiLogisticLoss (1 / 10) 1 2 [[1], [2], [-1]] [[1, 0], [0, 1], [1, 0]] (1 / 2)
+      (setEntry ([[1, 2]] : List (List ℝ)) 0 0 t)).getD 0)
+    ((((multiLogisticGrad (1 / 10) 1 2 [[1], [2], [-1]] [[1, 0], [0, 1], [1, 0]] (1 / 2)
+      ([[1, 2]] : List (List ℝ))).getD []).getD 0 []).getD 0 0)
+    (((([[1, 2]] : List (List ℝ))).getD 0 []).getD 0 0) :=
+  multi_logistic_grad_is_derivative_no_intercept (1 / 10) (by norm_num) 1 2 _ _ _ _ rfl
+    (by intro r hr; simp at hr; subst hr; rfl)
+    (by intro r hr; simp at hr; rcases hr with rfl | rfl | rfl <;> norm_num) 0 0 (by norm_num) (by norm_num)
 
 end Grad
 
@@ -792,10 +1069,9 @@ example : HasDerivAt (fun m => (unitDeviance rpw (1 / 1000000) 1 3 m).getD 0)
     (unitDevianceDeriv rpw 1 3 2) 2 :=
   tweedie_unit_deviance_deriv_poisson _ 3 2 (by norm_num) (by norm_num) (by norm_num)
 
-/-- **per-sample, per-coordinate term of the GLM gradient** (`_partial` of
-`tweedie_grad_is_derivative`; full statement: every entry of `Glm.gradient` is the partial
-derivative of `Glm.cost` — missing: the sum over the sample list and the parameter-vector
-bookkeeping).  If `D` is the unit deviance of the sample as a function of the mean, with derivative
+/-- **per-sample, per-coordinate term of the GLM gradient** (the building block of
+`tweedie_grad_is_derivative` below, where every entry of `Glm.gradient` is shown to be the partial
+derivative of `Glm.cost`).  If `D` is the unit deviance of the sample as a function of the mean, with derivative
 `d` at `μ = h(η₀)`, and the linear predictor depends on the coordinate as `η₀ + xj (t - w₀)`, then
 `½ D(h(η))` has derivative `d · h'(η₀) · xj · ½` — the summand `temp[i] * x_ij * 0.5` of
 `TweedieProblem::gradient` (`xj = 1` for the intercept). -/
@@ -824,6 +1100,336 @@ example : HasDerivAt (fun t : ℝ => (Glm.half : ℝ) * (fun m => (unitDeviance 
     (unitDevianceDeriv rpw 1 3 (linkInverse .log 0) * linkInverseDeriv .log 0 * 2 * Glm.half) 0 :=
   tweedie_grad_is_derivative_partial _ _ .log 0 2 0
     (tweedie_unit_deviance_deriv_poisson _ 3 _ (by norm_num) (by simp [linkInverse, Transc.exp]) (by norm_num))
+
+/-- sum rule over the sample list, coefficient `j` of the GLM objective (data part `½ Σ d(yᵢ, h(ηᵢ))`) -/
+theorem glm_data_hasDerivAt_weight (pw : ℝ → ℝ → ℝ) (tol6 power : ℝ) (l : Glm.Link)
+    (x : List (List ℝ)) (y c : List ℝ) (b : ℝ) (j : Nat) (hj : j < c.length)
+    (H : ∀ q ∈ x.zip y, HasDerivAt (fun m => (unitDeviance pw tol6 power q.2 m).getD 0)
+      (unitDevianceDeriv pw power q.2 (linkInverse l (dotS q.1 c + b))) (linkInverse l (dotS q.1 c + b))) :
+    HasDerivAt (fun t : ℝ => (Glm.half : ℝ) *
+        (List.zipWith (fun u v => (unitDeviance pw tol6 power u v).getD 0) y
+          ((x.map fun row => dotS row (c.set j t) + b).map (linkInverse l))).sum)
+      (dotS (List.zipWith (· * ·) ((x.map fun row => dotS row c + b).map (linkInverseDeriv l))
+          (List.zipWith (unitDevianceDeriv pw power) y ((x.map fun row => dotS row c + b).map (linkInverse l))))
+        (Glm.col x j) * Glm.half) (c.getD j 0) := by
+  induction x generalizing y with
+  | nil => simpa [Glm.col, dotS_nil_left] using hasDerivAt_const (c.getD j 0) (0 : ℝ)
+  | cons r xs ih =>
+    cases y with
+    | nil => simpa [Glm.col, dotS_nil_left] using hasDerivAt_const (c.getD j 0) (0 : ℝ)
+    | cons yi ys =>
+      have hhead := tweedie_grad_is_derivative_partial (fun m => (unitDeviance pw tol6 power yi m).getD 0)
+        (unitDevianceDeriv pw power yi (linkInverse l (dotS r c + b))) l (dotS r c + b) (r.getD j 0) (c.getD j 0)
+        (H (r, yi) (by simp))
+      have htail := ih ys (fun q hq => H q (by
+        simp only [List.zip_cons_cons, List.mem_cons]; exact Or.inr hq))
+      have hsum := hhead.add htail
+      have e1 : (fun t : ℝ => (Glm.half : ℝ) *
+          (List.zipWith (fun u v => (unitDeviance pw tol6 power u v).getD 0) (yi :: ys)
+            (((r :: xs).map fun row => dotS row (c.set j t) + b).map (linkInverse l))).sum) =
+          fun t : ℝ => (Glm.half : ℝ) * (fun m => (unitDeviance pw tol6 power yi m).getD 0)
+              (linkInverse l (dotS r c + b + r.getD j 0 * (t - c.getD j 0))) +
+            (Glm.half : ℝ) * (List.zipWith (fun u v => (unitDeviance pw tol6 power u v).getD 0) ys
+              ((xs.map fun row => dotS row (c.set j t) + b).map (linkInverse l))).sum := by
+        funext t
+        simp only [List.map_cons, List.zipWith_cons_cons, List.sum_cons]
+        rw [dotS_set r c j t hj]
+        ring_nf
+      have e2 : dotS (List.zipWith (· * ·) (((r :: xs).map fun row => dotS row c + b).map (linkInverseDeriv l))
+            (List.zipWith (unitDevianceDeriv pw power) (yi :: ys)
+              (((r :: xs).map fun row => dotS row c + b).map (linkInverse l))))
+          (Glm.col (r :: xs) j) * Glm.half =
+          unitDevianceDeriv pw power yi (linkInverse l (dotS r c + b)) * linkInverseDeriv l (dotS r c + b) *
+              r.getD j 0 * Glm.half +
+            dotS (List.zipWith (· * ·) ((xs.map fun row => dotS row c + b).map (linkInverseDeriv l))
+              (List.zipWith (unitDevianceDeriv pw power) ys ((xs.map fun row => dotS row c + b).map (linkInverse l))))
+            (Glm.col xs j) * Glm.half := by
+        simp only [Glm.col, List.map_cons, List.zipWith_cons_cons, dotS_cons]
+        ring
+      rw [e1, e2]
+      exact hsum
+
+
+/-- sum rule, intercept of the GLM objective -/
+theorem glm_data_hasDerivAt_intercept (pw : ℝ → ℝ → ℝ) (tol6 power : ℝ) (l : Glm.Link)
+    (x : List (List ℝ)) (y c : List ℝ) (b : ℝ)
+    (H : ∀ q ∈ x.zip y, HasDerivAt (fun m => (unitDeviance pw tol6 power q.2 m).getD 0)
+      (unitDevianceDeriv pw power q.2 (linkInverse l (dotS q.1 c + b))) (linkInverse l (dotS q.1 c + b))) :
+    HasDerivAt (fun t : ℝ => (Glm.half : ℝ) *
+        (List.zipWith (fun u v => (unitDeviance pw tol6 power u v).getD 0) y
+          ((x.map fun row => dotS row c + t).map (linkInverse l))).sum)
+      (sumS (List.zipWith (· * ·) ((x.map fun row => dotS row c + b).map (linkInverseDeriv l))
+          (List.zipWith (unitDevianceDeriv pw power) y ((x.map fun row => dotS row c + b).map (linkInverse l)))) *
+        Glm.half) b := by
+  induction x generalizing y with
+  | nil => simpa [sumS] using hasDerivAt_const b (0 : ℝ)
+  | cons r xs ih =>
+    cases y with
+    | nil => simpa [sumS] using hasDerivAt_const b (0 : ℝ)
+    | cons yi ys =>
+      have hhead := tweedie_grad_is_derivative_partial (fun m => (unitDeviance pw tol6 power yi m).getD 0)
+        (unitDevianceDeriv pw power yi (linkInverse l (dotS r c + b))) l (dotS r c + b) 1 b
+        (H (r, yi) (by simp))
+      have htail := ih ys (fun q hq => H q (by
+        simp only [List.zip_cons_cons, List.mem_cons]; exact Or.inr hq))
+      have hsum := hhead.add htail
+      have e1 : (fun t : ℝ => (Glm.half : ℝ) *
+          (List.zipWith (fun u v => (unitDeviance pw tol6 power u v).getD 0) (yi :: ys)
+            (((r :: xs).map fun row => dotS row c + t).map (linkInverse l))).sum) =
+          fun t : ℝ => (Glm.half : ℝ) * (fun m => (unitDeviance pw tol6 power yi m).getD 0)
+              (linkInverse l (dotS r c + b + 1 * (t - b))) +
+            (Glm.half : ℝ) * (List.zipWith (fun u v => (unitDeviance pw tol6 power u v).getD 0) ys
+              ((xs.map fun row => dotS row c + t).map (linkInverse l))).sum := by
+        funext t
+        simp only [List.map_cons, List.zipWith_cons_cons, List.sum_cons]
+        ring_nf
+      have e2 : sumS (List.zipWith (· * ·) (((r :: xs).map fun row => dotS row c + b).map (linkInverseDeriv l))
+            (List.zipWith (unitDevianceDeriv pw power) (yi :: ys)
+              (((r :: xs).map fun row => dotS row c + b).map (linkInverse l)))) * Glm.half =
+          unitDevianceDeriv pw power yi (linkInverse l (dotS r c + b)) * linkInverseDeriv l (dotS r c + b) *
+              1 * Glm.half +
+            sumS (List.zipWith (· * ·) ((xs.map fun row => dotS row c + b).map (linkInverseDeriv l))
+              (List.zipWith (unitDevianceDeriv pw power) ys ((xs.map fun row => dotS row c + b).map (linkInverse l)))) *
+            Glm.half := by
+        simp only [List.map_cons, List.zipWith_cons_cons, sumS_cons]
+        ring
+      rw [e1, e2]
+      exact hsum
+
+/-- the GLM penalty `½ α Σ c²` (coefficients only) as a function of coefficient `j` -/
+theorem glm_penalty_hasDerivAt (c : List ℝ) (alpha : ℝ) (j : Nat) (hj : j < c.length) :
+    HasDerivAt (fun t : ℝ => (Glm.half : ℝ) * dotS (c.set j t) ((c.set j t).map (· * alpha)))
+      (c.getD j 0 * alpha) (c.getD j 0) := by
+  have e : (fun t : ℝ => (Glm.half : ℝ) * dotS (c.set j t) ((c.set j t).map (· * alpha))) =
+      fun t : ℝ => (Glm.half : ℝ) * ((dotS c (c.map (· * alpha)) - c.getD j 0 * (c.getD j 0 * alpha)) + t * (t * alpha)) := by
+    funext t; rw [dotS_set_scaled c alpha j t hj]
+  rw [e]
+  have h := ((((hasDerivAt_id (c.getD j 0)).mul ((hasDerivAt_id (c.getD j 0)).mul_const alpha))).const_add
+    (dotS c (c.map (· * alpha)) - c.getD j 0 * (c.getD j 0 * alpha))).const_mul (Glm.half : ℝ)
+  exact h.congr_deriv (by simp only [Glm.half, id]; ring)
+
+
+/-- negative powers (the first arm of the `match`; extreme-stable distributions): same derivative -/
+theorem tweedie_unit_deviance_deriv_negative (tol6 p y μ : ℝ) (hp : p < 0) (hμ : 0 < μ) :
+    HasDerivAt (fun m => (unitDeviance rpw tol6 p y m).getD 0) (unitDevianceDeriv rpw p y μ) μ := by
+  have hc : powerClass tol6 p = .negative := by simp [powerClass, hp]
+  have hf : (fun m => (unitDeviance rpw tol6 p y m).getD 0) =
+      fun m => two * (maxS y 0 ^ (two - p) / ((1 - p) * (two - p)) - y * (m ^ (1 - p) / (1 - p)) + m ^ (two - p) / (two - p)) := by
+    funext m; simp [unitDeviance, hc, rpw]
+  rw [hf]
+  have h1p : (1 - p) ≠ 0 := by linarith
+  have h2p : (2 - p) ≠ 0 := by linarith
+  have ha := (Real.hasDerivAt_rpow_const (x := μ) (p := 1 - p) (Or.inl (ne_of_gt hμ)))
+  have hb := (Real.hasDerivAt_rpow_const (x := μ) (p := two - p) (Or.inl (ne_of_gt hμ)))
+  have h := ((((ha.div_const (1 - p)).const_mul y).const_sub (maxS y 0 ^ (two - p) / ((1 - p) * (two - p)))).add
+    (hb.div_const (two - p))).const_mul (two : ℝ)
+  refine h.congr_deriv ?_
+  simp only [unitDevianceDeriv, rpw, glm_two_eq]
+  have e1 : μ ^ (1 - p - 1) = μ ^ (-p) := by ring_nf
+  have e2 : μ ^ (2 - p - 1) = μ ^ (-p) * μ := by
+    rw [show (2 - p - 1) = -p + 1 by ring, Real.rpow_add hμ, Real.rpow_one]
+  rw [e1, e2, Real.rpow_neg hμ.le]
+  field_simp
+  ring
+
+/-- the points at which the code's unit deviance is finite and differentiable in the mean, per arm of the power
+`match`: everywhere for the Normal arm; `μ > 0` (and the support of `y`) for the others -/
+def DevianceDomain (tol6 power y μ : ℝ) : Prop :=
+  power = 0 ∨ (power < 0 ∧ 0 < μ) ∨ (power = 1 ∧ 0 < μ ∧ 0 ≤ y) ∨ (power = 2 ∧ 0 < μ ∧ 0 < y) ∨
+    (powerClass tol6 power = .generic ∧ power ≠ 1 ∧ power ≠ 2 ∧ 0 < μ)
+
+/-- every arm of the power `match`: the code's `unit_deviance_derivative` is the derivative of its `unit_deviance` -/
+theorem unit_deviance_hasDerivAt (tol6 power y μ : ℝ) (ht : 0 < tol6) (ht1 : tol6 ≤ 1)
+    (h : DevianceDomain tol6 power y μ) :
+    HasDerivAt (fun m => (unitDeviance rpw tol6 power y m).getD 0) (unitDevianceDeriv rpw power y μ) μ := by
+  rcases h with h | ⟨h, hμ⟩ | ⟨h, hμ, hy⟩ | ⟨h, hμ, hy⟩ | ⟨hc, h1, h2, hμ⟩
+  · subst h; exact tweedie_unit_deviance_deriv_normal tol6 y μ
+  · exact tweedie_unit_deviance_deriv_negative tol6 power y μ h hμ
+  · subst h; exact tweedie_unit_deviance_deriv_poisson tol6 y μ ht hμ hy
+  · subst h; exact tweedie_unit_deviance_deriv_gamma tol6 y μ ht ht1 hμ hy
+  · exact tweedie_unit_deviance_deriv_generic tol6 power y μ hc h1 h2 hμ
+
+/-- with the log and the logit link the mean is positive at every linear predictor -/
+theorem link_inverse_pos (l : Glm.Link) (hl : l ≠ .identity) (η : ℝ) : 0 < linkInverse l η := by
+  cases l with
+  | identity => exact absurd rfl hl
+  | log => exact Real.exp_pos η
+  | logit => exact (logistic_range η).1
+
+
+/-- the data-part summands of `TweedieProblem::gradient` (`temp` in the Rust code) -/
+noncomputable def glmTemp (power : ℝ) (l : Glm.Link) (x : List (List ℝ)) (y c : List ℝ) (b : ℝ) : List ℝ :=
+  List.zipWith (· * ·) ((x.map fun row => dotS row c + b).map (linkInverseDeriv l))
+    (List.zipWith (unitDevianceDeriv rpw power) y ((x.map fun row => dotS row c + b).map (linkInverse l)))
+
+theorem glm_cost_icpt (tol6 power alpha : ℝ) (l : Glm.Link) (hc : powerClass tol6 power ≠ .invalid)
+    (x : List (List ℝ)) (y c : List ℝ) (b : ℝ) :
+    (Glm.cost rpw tol6 power alpha l true x y (b :: c)).getD 0 =
+      (Glm.half : ℝ) * (List.zipWith (fun u v => (unitDeviance rpw tol6 power u v).getD 0) y
+          ((x.map fun row => dotS row c + b).map (linkInverse l))).sum +
+        (Glm.half : ℝ) * dotS c (c.map (· * alpha)) := by
+  simp only [Glm.cost, Glm.linPred, Glm.splitP, if_true, List.drop_one, List.tail_cons, List.headD_cons]
+  rw [deviance_eq rpw tol6 power hc]
+  simp only [Option.getD_some]
+  ring
+
+theorem glm_cost_no_icpt (tol6 power alpha : ℝ) (l : Glm.Link) (hc : powerClass tol6 power ≠ .invalid)
+    (x : List (List ℝ)) (y c : List ℝ) :
+    (Glm.cost rpw tol6 power alpha l false x y c).getD 0 =
+      (Glm.half : ℝ) * (List.zipWith (fun u v => (unitDeviance rpw tol6 power u v).getD 0) y
+          ((x.map fun row => dotS row c + 0).map (linkInverse l))).sum +
+        (Glm.half : ℝ) * dotS c (c.map (· * alpha)) := by
+  simp only [Glm.cost, Glm.linPred, Glm.splitP, Bool.false_eq_true, if_false]
+  rw [deviance_eq rpw tol6 power hc]
+  simp only [Option.getD_some]
+  ring
+
+theorem glm_gradient_icpt (power alpha : ℝ) (l : Glm.Link) (nf : Nat) (x : List (List ℝ)) (y c : List ℝ) (b : ℝ) :
+    Glm.gradient rpw power alpha l true nf x y (b :: c) =
+      (sumS (glmTemp power l x y c b) * Glm.half) ::
+        (List.range nf).map fun j => dotS (glmTemp power l x y c b) (Glm.col x j) * Glm.half + c.getD j 0 * alpha := by
+  simp only [Glm.gradient, Glm.linPred, Glm.splitP, if_true, List.drop_one, List.tail_cons, List.headD_cons, glmTemp]
+
+theorem glm_gradient_no_icpt (power alpha : ℝ) (l : Glm.Link) (nf : Nat) (x : List (List ℝ)) (y c : List ℝ) :
+    Glm.gradient rpw power alpha l false nf x y c =
+      (List.range nf).map fun j => dotS (glmTemp power l x y c 0) (Glm.col x j) * Glm.half + c.getD j 0 * alpha := by
+  simp only [Glm.gradient, Glm.linPred, Glm.splitP, Bool.false_eq_true, if_false, glmTemp]
+
+
+/-- **FULL (coefficient `j`, model with intercept)**: entry `j+1` of `Glm.gradient` is the partial derivative of
+`Glm.cost` = `½ (deviance + α ‖coef‖²)` with respect to coefficient `j` (parameter vector = intercept first), for every
+sample list, every arm of the power `match` and every link, at parameters whose means are in the deviance's domain -/
+theorem tweedie_grad_is_derivative_weight (tol6 power alpha : ℝ) (ht : 0 < tol6) (ht1 : tol6 ≤ 1) (l : Glm.Link)
+    (hc : powerClass tol6 power ≠ .invalid) (nf : Nat) (x : List (List ℝ)) (y p : List ℝ)
+    (hp : p.length = nf + 1) (j : Nat) (hj : j < nf)
+    (H : ∀ q ∈ x.zip y, DevianceDomain tol6 power q.2 (linkInverse l (dotS q.1 (p.drop 1) + p.headD 0))) :
+    HasDerivAt (fun t : ℝ => (Glm.cost rpw tol6 power alpha l true x y (p.set (j + 1) t)).getD 0)
+      ((Glm.gradient rpw power alpha l true nf x y p).getD (j + 1) 0) (p.getD (j + 1) 0) := by
+  cases p with
+  | nil => simp at hp
+  | cons b c =>
+    have hcl : c.length = nf := by simpa using hp
+    have hjc : j < c.length := by omega
+    simp only [List.drop_one, List.tail_cons, List.headD_cons] at H
+    have e : (fun t : ℝ => (Glm.cost rpw tol6 power alpha l true x y ((b :: c).set (j + 1) t)).getD 0) =
+        fun t : ℝ => (Glm.half : ℝ) * (List.zipWith (fun u v => (unitDeviance rpw tol6 power u v).getD 0) y
+            ((x.map fun row => dotS row (c.set j t) + b).map (linkInverse l))).sum +
+          (Glm.half : ℝ) * dotS (c.set j t) ((c.set j t).map (· * alpha)) := by
+      funext t
+      rw [List.set_cons_succ, glm_cost_icpt tol6 power alpha l hc]
+    have g : (Glm.gradient rpw power alpha l true nf x y (b :: c)).getD (j + 1) 0 =
+        dotS (glmTemp power l x y c b) (Glm.col x j) * Glm.half + c.getD j 0 * alpha := by
+      rw [glm_gradient_icpt, List.getD_cons_succ, List.getD_eq_getElem?_getD]
+      simp [hj]
+    rw [e, g, List.getD_cons_succ]
+    exact (glm_data_hasDerivAt_weight rpw tol6 power l x y c b j hjc
+      (fun q hq => unit_deviance_hasDerivAt tol6 power q.2 _ ht ht1 (H q hq))).add
+      (glm_penalty_hasDerivAt c alpha j hjc)
+
+/-- **FULL (intercept)**: entry `0` of `Glm.gradient` is the partial derivative of `Glm.cost` with respect to the
+intercept (no penalty term) -/
+theorem tweedie_grad_is_derivative_intercept (tol6 power alpha : ℝ) (ht : 0 < tol6) (ht1 : tol6 ≤ 1) (l : Glm.Link)
+    (hc : powerClass tol6 power ≠ .invalid) (nf : Nat) (x : List (List ℝ)) (y p : List ℝ)
+    (hp : p.length = nf + 1)
+    (H : ∀ q ∈ x.zip y, DevianceDomain tol6 power q.2 (linkInverse l (dotS q.1 (p.drop 1) + p.headD 0))) :
+    HasDerivAt (fun t : ℝ => (Glm.cost rpw tol6 power alpha l true x y (p.set 0 t)).getD 0)
+      ((Glm.gradient rpw power alpha l true nf x y p).getD 0 0) (p.getD 0 0) := by
+  cases p with
+  | nil => simp at hp
+  | cons b c =>
+    simp only [List.drop_one, List.tail_cons, List.headD_cons] at H
+    have e : (fun t : ℝ => (Glm.cost rpw tol6 power alpha l true x y ((b :: c).set 0 t)).getD 0) =
+        fun t : ℝ => (Glm.half : ℝ) * (List.zipWith (fun u v => (unitDeviance rpw tol6 power u v).getD 0) y
+            ((x.map fun row => dotS row c + t).map (linkInverse l))).sum +
+          (Glm.half : ℝ) * dotS c (c.map (· * alpha)) := by
+      funext t
+      rw [List.set_cons_zero, glm_cost_icpt tol6 power alpha l hc]
+    rw [e, glm_gradient_icpt, List.getD_cons_zero, List.getD_cons_zero]
+    exact (glm_data_hasDerivAt_intercept rpw tol6 power l x y c b
+      (fun q hq => unit_deviance_hasDerivAt tol6 power q.2 _ ht ht1 (H q hq))).add_const _
+
+/-- **FULL (model without intercept)**: `p.length = nf`, intercept fixed at `0` -/
+theorem tweedie_grad_is_derivative_no_intercept (tol6 power alpha : ℝ) (ht : 0 < tol6) (ht1 : tol6 ≤ 1) (l : Glm.Link)
+    (hc : powerClass tol6 power ≠ .invalid) (nf : Nat) (x : List (List ℝ)) (y p : List ℝ)
+    (hp : p.length = nf) (j : Nat) (hj : j < nf)
+    (H : ∀ q ∈ x.zip y, DevianceDomain tol6 power q.2 (linkInverse l (dotS q.1 p + 0))) :
+    HasDerivAt (fun t : ℝ => (Glm.cost rpw tol6 power alpha l false x y (p.set j t)).getD 0)
+      ((Glm.gradient rpw power alpha l false nf x y p).getD j 0) (p.getD j 0) := by
+  have hjp : j < p.length := by omega
+  have e : (fun t : ℝ => (Glm.cost rpw tol6 power alpha l false x y (p.set j t)).getD 0) =
+      fun t : ℝ => (Glm.half : ℝ) * (List.zipWith (fun u v => (unitDeviance rpw tol6 power u v).getD 0) y
+          ((x.map fun row => dotS row (p.set j t) + 0).map (linkInverse l))).sum +
+        (Glm.half : ℝ) * dotS (p.set j t) ((p.set j t).map (· * alpha)) := by
+    funext t
+    rw [glm_cost_no_icpt tol6 power alpha l hc]
+  have g : (Glm.gradient rpw power alpha l false nf x y p).getD j 0 =
+      dotS (glmTemp power l x y p 0) (Glm.col x j) * Glm.half + p.getD j 0 * alpha := by
+    rw [glm_gradient_no_icpt, List.getD_eq_getElem?_getD]
+    simp [hj]
+  rw [e, g]
+  exact (glm_data_hasDerivAt_weight rpw tol6 power l x y p 0 j hjp
+    (fun q hq => unit_deviance_hasDerivAt tol6 power q.2 _ ht ht1 (H q hq))).add
+    (glm_penalty_hasDerivAt p alpha j hjp)
+
+
+/-- **every entry at once** (model with intercept; entry `0` = intercept, entry `j+1` = coefficient `j`) -/
+theorem tweedie_grad_is_derivative (tol6 power alpha : ℝ) (ht : 0 < tol6) (ht1 : tol6 ≤ 1) (l : Glm.Link)
+    (hc : powerClass tol6 power ≠ .invalid) (nf : Nat) (x : List (List ℝ)) (y p : List ℝ)
+    (hp : p.length = nf + 1) (i : Nat) (hi : i < nf + 1)
+    (H : ∀ q ∈ x.zip y, DevianceDomain tol6 power q.2 (linkInverse l (dotS q.1 (p.drop 1) + p.headD 0))) :
+    HasDerivAt (fun t : ℝ => (Glm.cost rpw tol6 power alpha l true x y (p.set i t)).getD 0)
+      ((Glm.gradient rpw power alpha l true nf x y p).getD i 0) (p.getD i 0) := by
+  cases i with
+  | zero => exact tweedie_grad_is_derivative_intercept tol6 power alpha ht ht1 l hc nf x y p hp H
+  | succ j => exact tweedie_grad_is_derivative_weight tol6 power alpha ht ht1 l hc nf x y p hp j (by omega) H
+
+/-- **oracle clause `stationary` ⇔ first-order optimality** (Tweedie GLM): `Glm.gradient` vanishes at `p` iff every
+partial derivative of the documented objective `½ (deviance + α ‖coef‖²)` is zero at `p` -/
+theorem tweedie_stationary_iff_grad_zero (tol6 power alpha : ℝ) (ht : 0 < tol6) (ht1 : tol6 ≤ 1) (l : Glm.Link)
+    (hc : powerClass tol6 power ≠ .invalid) (nf : Nat) (x : List (List ℝ)) (y p : List ℝ)
+    (hp : p.length = nf + 1)
+    (H : ∀ q ∈ x.zip y, DevianceDomain tol6 power q.2 (linkInverse l (dotS q.1 (p.drop 1) + p.headD 0))) :
+    (∀ i, i < nf + 1 → (Glm.gradient rpw power alpha l true nf x y p).getD i 0 = 0) ↔
+    (∀ i, i < nf + 1 →
+      HasDerivAt (fun t : ℝ => (Glm.cost rpw tol6 power alpha l true x y (p.set i t)).getD 0) 0 (p.getD i 0)) :=
+  stationary_iff_of_hasDerivAt (nf + 1) _ _ _
+    (fun i hi => tweedie_grad_is_derivative tol6 power alpha ht ht1 l hc nf x y p hp i hi H)
+
+/-- with the log or the logit link the domain hypothesis reduces to the support of the targets -/
+theorem deviance_domain_of_positive_link (tol6 power y η : ℝ) (l : Glm.Link) (hl : l ≠ .identity)
+    (h : power = 0 ∨ power < 0 ∨ (power = 1 ∧ 0 ≤ y) ∨ (power = 2 ∧ 0 < y) ∨
+      (powerClass tol6 power = .generic ∧ power ≠ 1 ∧ power ≠ 2)) :
+    DevianceDomain tol6 power y (linkInverse l η) := by
+  have hμ := link_inverse_pos l hl η
+  rcases h with h | h | ⟨h, hy⟩ | ⟨h, hy⟩ | ⟨h, h1, h2⟩
+  · exact Or.inl h
+  · exact Or.inr (Or.inl ⟨h, hμ⟩)
+  · exact Or.inr (Or.inr (Or.inl ⟨h, hμ, hy⟩))
+  · exact Or.inr (Or.inr (Or.inr (Or.inl ⟨h, hμ, hy⟩)))
+  · exact Or.inr (Or.inr (Or.inr (Or.inr ⟨h, h1, h2, hμ⟩)))
+
+example : HasDerivAt (fun t : ℝ => (Glm.cost rpw (1 / 1000000) 1 (1 / 2) .log true [[1], [2]] [3, 0]
+      (([0, 1 / 2] : List ℝ).set 1 t)).getD 0)
+    ((Glm.gradient rpw 1 (1 / 2) .log true 1 [[1], [2]] [3, 0] ([0, 1 / 2] : List ℝ)).getD 1 0)
+    (([0, 1 / 2] : List ℝ).getD 1 0) :=
+  tweedie_grad_is_derivative (1 / 1000000) 1 (1 / 2) (by norm_num) (by norm_num) .log
+    (by norm_num [powerClass, absS]; decide) 1 _ _ _ rfl 1 (by norm_num)
+    (fun q _ => deviance_domain_of_positive_link _ _ _ _ .log (by decide)
+      (Or.inr (Or.inr (Or.inl ⟨rfl, by
+        have : q ∈ [([1], (3 : ℝ)), ([2], (0 : ℝ))] := by assumption
+        simp at this; rcases this with rfl | rfl <;> norm_num⟩))))
+
+/-- identity link: the domain hypothesis `μ > 0` is a genuine condition on the parameters (Gamma, `μ = x·coef`) -/
+example : HasDerivAt (fun t : ℝ => (Glm.cost rpw (1 / 1000000) 2 1 .identity false [[1], [2]] [3, 1]
+      (([1] : List ℝ).set 0 t)).getD 0)
+    ((Glm.gradient rpw 2 1 .identity false 1 [[1], [2]] [3, 1] ([1] : List ℝ)).getD 0 0)
+    (([1] : List ℝ).getD 0 0) :=
+  tweedie_grad_is_derivative_no_intercept (1 / 1000000) 2 1 (by norm_num) (by norm_num) .identity
+    (by norm_num [powerClass, absS, glm_two_eq]; decide) 1 _ _ _ rfl 0 (by norm_num)
+    (fun q hq => Or.inr (Or.inr (Or.inr (Or.inl (by
+      have : q ∈ [([1], (3 : ℝ)), ([2], (1 : ℝ))] := hq
+      simp at this
+      rcases this with rfl | rfl <;> simp [linkInverse, dotS, sumS])))))
 
 end Glm
 
